@@ -481,7 +481,12 @@ func runC09(ctx *core.Ctx, idx int) *core.Result {
 		}
 		for _, e := range seq.extra {
 			for p := 0; p < 1+r.Intn(2); p++ {
-				plants = append(plants, gen.Plant{Kind: "expr", Text: fmt.Sprintf(e, g.Atom())})
+				// a literal atom in front of a selector ('017.list') is no Go: take a name there
+				t := fmt.Sprintf(e, g.Atom())
+				for try := 0; try < 20 && !gen.PlantParses("expr", t); try++ {
+					t = fmt.Sprintf(e, g.Ident())
+				}
+				plants = append(plants, gen.Plant{Kind: "expr", Text: t})
 			}
 		}
 		if len(seq.decls) > 0 {
